@@ -130,6 +130,24 @@ private:
     Index m_nconv;
     Matrix m_evecs;
 
+    // Returns [mat * w_1 / s_1, ..., mat * w_k / s_k], the singular vectors on the other side
+    // A zero singular value (exactly rank-deficient input) does not determine its vector
+    // through this formula; a zero column is returned for it instead of NaN
+    template <typename MatExpr>
+    Matrix scaled_product(const MatExpr& mat, Index k) const
+    {
+        const Vector svals = singular_values();
+        Matrix res(mat.rows(), k);
+        for (Index i = 0; i < k; i++)
+        {
+            if (svals[i] > Scalar(0))
+                res.col(i).noalias() = mat * (m_evecs.col(i) / svals[i]);
+            else
+                res.col(i).setZero();
+        }
+        return res;
+    }
+
 public:
     // Constructor
     PartialSVDSolver(ConstGenericMatrix& mat, Index ncomp, Index ncv) :
@@ -180,7 +198,9 @@ public:
     // The converged singular values
     Vector singular_values() const
     {
-        Vector svals = m_eigs->eigenvalues().cwiseSqrt();
+        // A'A and AA' are positive semi-definite: a computed eigenvalue that is negative
+        // (rank-deficient input) is rounding noise around zero, not a negative number to take the root of
+        Vector svals = m_eigs->eigenvalues().cwiseMax(Scalar(0)).cwiseSqrt();
 
         return svals;
     }
@@ -198,7 +218,7 @@ public:
             return m_evecs.leftCols(nu);
         }
 
-        return m_mat * (m_evecs.leftCols(nu).array().rowwise() / m_eigs->eigenvalues().head(nu).transpose().array().sqrt()).matrix();
+        return scaled_product(m_mat, nu);
     }
 
     // The converged right singular vectors
@@ -214,7 +234,7 @@ public:
             return m_evecs.leftCols(nv);
         }
 
-        return m_mat.transpose() * (m_evecs.leftCols(nv).array().rowwise() / m_eigs->eigenvalues().head(nv).transpose().array().sqrt()).matrix();
+        return scaled_product(m_mat.transpose(), nv);
     }
 };
 
